@@ -54,6 +54,27 @@ def counter_run(args):
         shutil.rmtree(wd, ignore_errors=True)
 
 
+def exclusive_run(kind):
+    """single-writer database: while thread W holds an explicit write transaction that has read k, every other write to the
+    database — another write_tx, but also a plain insert / remove / batch through the keyspace handle, which is a
+    one-operation transaction — must wait for W's commit.  W reads k, B writes k, W writes k from what it read and commits:
+    the only serial order consistent with W's read is W then B, so B's value must be the final one."""
+    bop = {"put": "put h0 63 bb", "del": "del h0 63", "batch": "batch - h0:p:63:bb", "take": "take h0 63"}[kind]
+    L = ["open sw", "ks h0 alpha", "put h0 63 00", "thread w tx t0 begin", "thread w tx t0 get h0 63",
+         "thread b %s &" % bop, "sleep 300", "thread w tx t0 put h0 63 01", "thread w tx t0 get h0 63", "thread w tx t0 commit",
+         "thread b has - h0 00", "get - h0 63"]
+    prog = "\n".join(L) + "\n"
+    o, raw, rc = run_fjv(prog, env_extra={"FJV_SYNC_TIMEOUT_MS": "8000"}, timeout=90)
+    want = {"put": "some bb", "del": "none", "batch": "some bb", "take": "none"}[kind]
+    seen, inside, final = o.get(5), o.get(9), o.get(len(L))
+    if seen is None or final is None or any(str(v).startswith("err timeout") for v in o.values()):
+        return None
+    if seen != "some 00" or inside != "some 01" or final != want:
+        return ("single-writer exclusion: W read %s, B did `%s` while W's transaction was open, W wrote 01 (read back %s) and committed; "
+                "final value %s, expected %s (B serialised after W)" % (seen, bop, inside, final, want), prog)
+    return None
+
+
 def run(rep, tier, seed, build):
     n, nops = (300, 40) if tier == "quick" else (8000, 60)
     audit(rep, "props/C08.v", THEOREMS, build)
@@ -65,7 +86,11 @@ def run(rep, tier, seed, build):
             rep.violation("# C08: single-writer read-modify-write lost an update: final size %s, expected %s (%d of %d acknowledged)\n%s"
                           % (c["got"], c["want"], c["acks"], c["n"], c["prog"]))
             break
-    coverage(rep, res, progs, RULE, dict(counter_runs=len(cr), counter_increments=sum(c["n"] for c in cr)))
+    from common import pmap_confirm
+    ex, unconf = pmap_confirm(exclusive_run, ["put", "del", "batch", "take"], lambda x: bool(x), workers=4)
+    for msg, prog in [x for x in ex if x][:2]:
+        rep.violation("# C08: %s\n%s" % (msg, prog))
+    coverage(rep, res, progs, RULE, dict(counter_runs=len(cr), counter_increments=sum(c["n"] for c in cr), exclusion_schedules=4, unconfirmed_alarms=unconf))
 
 
 def replay(rep, path, build):
